@@ -281,6 +281,138 @@ class Program:
             return None
         return self.resolve_parts(module, d)
 
+    # ----------------------------------------------------------- constants
+    def _immutable_literal(self, v, names_ok=False):
+        """Normalised immutable literal (Constant / Tuple of them), else
+        None.  frozenset(L) / tuple(L) / set displays of constants are
+        normalised to a tuple display: such constants are used for
+        membership tests and iteration only."""
+        if isinstance(v, ast.Constant):
+            return v
+        if isinstance(v, ast.Call) and isinstance(v.func, ast.Name) and \
+                v.func.id in ('frozenset', 'tuple') and not v.keywords:
+            if not v.args:
+                return ast.Tuple(elts=[], ctx=ast.Load())
+            if len(v.args) == 1 and isinstance(v.args[0], (
+                    ast.Tuple, ast.List, ast.Set)):
+                v = v.args[0]
+            else:
+                return None
+        if isinstance(v, (ast.Tuple, ast.Set)) or (
+                isinstance(v, ast.List) and False):
+            elts = []
+            for e in v.elts:
+                if names_ok and dotted(e) is not None:
+                    elts.append(e)
+                    continue
+                x = self._immutable_literal(e, names_ok)
+                if x is None:
+                    return None
+                elts.append(x)
+            return ast.Tuple(elts=elts, ctx=ast.Load())
+        return None
+
+    def _module_const_names(self, module):
+        """Module-level names assigned exactly once, never declared global
+        in a function, never augmented."""
+        cached = getattr(module, '_const_names', None)
+        if cached is not None:
+            return cached
+        count = {}
+        for node in module.tree.body:
+            tg = []
+            if isinstance(node, ast.Assign):
+                tg = node.targets
+            elif isinstance(node, (ast.AnnAssign, ast.AugAssign)):
+                tg = [node.target]
+                if isinstance(node, ast.AugAssign) and isinstance(
+                        node.target, ast.Name):
+                    count[node.target.id] = 99
+            for t in tg:
+                for n in ast.walk(t):
+                    if isinstance(n, ast.Name):
+                        count[n.id] = count.get(n.id, 0) + 1
+        for n in ast.walk(module.tree):
+            if isinstance(n, ast.Global):
+                for nm in n.names:
+                    count[nm] = 99
+        module._const_names = {k for k, c in count.items() if c == 1}
+        return module._const_names
+
+    def module_constants(self, module, names_ok=False):
+        """{name: immutable literal} of the module's constants."""
+        key = '_consts_%s' % names_ok
+        cached = getattr(module, key, None)
+        if cached is not None:
+            return cached
+        out = {}
+        for nm in self._module_const_names(module):
+            v = module.assigns.get(nm)
+            if v is None:
+                continue
+            lit = self._immutable_literal(v, names_ok)
+            if lit is not None:
+                out[nm] = lit
+        setattr(module, key, out)
+        return out
+
+    def class_constants(self, clsqual, names_ok=False):
+        """{attr: immutable literal} of class-level constants that no
+        method of the hierarchy (or anything else in the package) stores
+        to."""
+        cache = self.__dict__.setdefault('_class_consts', {})
+        k = (clsqual, names_ok)
+        if k in cache:
+            return cache[k]
+        stored = self.__dict__.get('_stored_attrs')
+        if stored is None:
+            stored = set()
+            for m in self.units:
+                for n in ast.walk(m.tree):
+                    if isinstance(n, ast.Attribute) and isinstance(
+                            n.ctx, (ast.Store, ast.Del)):
+                        stored.add(n.attr)
+                    elif isinstance(n, ast.Call) and isinstance(
+                            n.func, ast.Name) and n.func.id == 'setattr':
+                        if len(n.args) >= 2 and isinstance(
+                                n.args[1], ast.Constant):
+                            stored.add(n.args[1].value)
+            self.__dict__['_stored_attrs'] = stored
+        out = {}
+        for q in reversed(self.mro(clsqual)):
+            c = self.classes.get(q)
+            if c is None:
+                continue
+            for nm, v in c.class_attrs.items():
+                if nm in stored:
+                    out.pop(nm, None)
+                    continue
+                lit = self._immutable_literal(v, names_ok)
+                if lit is not None:
+                    out[nm] = lit
+                else:
+                    out.pop(nm, None)
+        cache[k] = out
+        return out
+
+    def const_expr(self, module, expr, cls=None, names_ok=False):
+        """The immutable constant a Name / self.X / cls.X / Class.X /
+        module.X denotes, else None."""
+        if isinstance(expr, ast.Name):
+            return self.module_constants(module, names_ok).get(expr.id)
+        if isinstance(expr, ast.Attribute):
+            if isinstance(expr.value, ast.Name) and expr.value.id in (
+                    'self', 'cls') and cls is not None:
+                return self.class_constants(cls.qual, names_ok).get(
+                    expr.attr)
+            base = self.resolve(module, expr.value)
+            if base in self.classes:
+                return self.class_constants(base, names_ok).get(expr.attr)
+            if base in self.modules:
+                return self.module_constants(self.modules[base],
+                                             names_ok).get(expr.attr)
+        return None
+
     # ------------------------------------------------------------- classes
     def mro(self, qual):
         out = []
